@@ -91,6 +91,76 @@ def run(eng, rep, tier):
               "unify reports a clash although one side is unspecified (or never reports one)", su,
               site=(clash[0].site.to_json() if clash else site_of(prog, fu, fu.node)))
 
+    # atomic case: every success path links the two nodes (forwarding pointer), so that a later binding of one is seen
+    # by the other
+    atomic = None
+    for sub in ast.walk(fu.node):
+        if isinstance(sub, ast.If) and ast.unparse(sub.test).count("content") == 2 and "== 0" in ast.unparse(sub.test):
+            atomic = sub
+    if atomic is None:
+        rep.error("R1", "C18.3", fu.qname, "atomic-case-links-nodes", "the atomic case of unify was not found")
+    else:
+        def paths(stmts):
+            """(links, exits) for every path through a block of the atomic case"""
+            outs = [(False, False)]
+            for st in stmts:
+                new = []
+                for links, done in outs:
+                    if done:
+                        new.append((links, done))
+                        continue
+                    if isinstance(st, ast.If):
+                        for br in (st.body, st.orelse):
+                            for l2, d2 in paths(br):
+                                new.append((links or l2, d2))
+                    elif isinstance(st, ast.Raise):
+                        new.append((True, True))          # refusal: nothing to link
+                    elif isinstance(st, ast.Return):
+                        new.append((links, True))
+                    elif isinstance(st, ast.Assign) and any(isinstance(tg, ast.Attribute) and tg.attr in ("pointer", "_pointer")
+                                                           for tg in st.targets):
+                        new.append((True, done))
+                    else:
+                        new.append((links, done))
+                outs = new
+            return outs
+        unlinked = [pth for pth in paths(atomic.body) if not pth[0]]
+        ob.decide("R1", "C18.3", fu, "atomic-case-links-nodes", not unlinked,
+                  "every non-refusing path of the atomic case forwards one node to the other",
+                  "a success path of the atomic case leaves the two nodes unlinked (e.g. two unbound variables): a value "
+                  "bound later on one side is not seen on the other", None, site=site_of(prog, fu, atomic))
+    # the copies unified by the completer are made for each waiting state (inside the loop that unifies)
+    for c in ast.walk(comp.node):
+        if isinstance(c, ast.Call) and isinstance(c.func, ast.Attribute) and c.func.attr == "unify":
+            loops = [a for a in _path_to(comp.node, c) if isinstance(a, ast.For)]
+            if not loops:
+                continue
+            loop = loops[-1]
+            names_ = [c.func.value] + list(c.args)
+            hoisted = []
+            for nm in names_:
+                if not isinstance(nm, ast.Name):
+                    continue
+                srcs = set()
+                todo = [nm.id]
+                while todo:
+                    cur = todo.pop()
+                    if cur in srcs:
+                        continue
+                    srcs.add(cur)
+                    for a in ast.walk(comp.node):
+                        if isinstance(a, ast.Assign) and any(isinstance(tg, ast.Name) and tg.id == cur for tg in a.targets):
+                            inside = any(x is a for x in ast.walk(loop))
+                            if not inside:
+                                hoisted.append(cur)
+                            for x in ast.walk(a.value):
+                                if isinstance(x, ast.Name) and x.id not in ("state", "next_state"):
+                                    todo.append(x.id)
+            ob.decide("R4", "C18.1", comp, "copies-made-per-waiting-state", not hoisted,
+                      "both operands of unify are copied inside the loop over waiting states",
+                      "the copy `%s` is made once outside the loop over waiting states and unified several times: the "
+                      "bindings of the first waiting state leak into the next" % (hoisted[0] if hoisted else ""), None,
+                      site=site_of(prog, comp, c))
     # -------------------------------------------------------------- C18.4 copy / subsumes / unify structure
     fc = prog.method("FeatureStructure", "copy")
     memo_first = False
@@ -133,13 +203,17 @@ def run(eng, rep, tier):
     # -------------------------------------------------------------- C18.5 DEREF typestate
     for meth in ("unify", "subsumes", "get_feature_by_path"):
         f = prog.method("FeatureStructure", meth)
-        deref_names = set()
+        deref_names, other_assigned = set(), set()
         for s in ast.walk(f.node):
-            if isinstance(s, ast.Assign) and isinstance(s.value, ast.Call) and isinstance(s.value.func, ast.Attribute) and \
-                    s.value.func.attr == "get_dereferenced":
+            if isinstance(s, ast.Assign):
+                from_deref = isinstance(s.value, ast.Call) and isinstance(s.value.func, ast.Attribute) and \
+                    s.value.func.attr == "get_dereferenced"
                 for tg in s.targets:
                     if isinstance(tg, ast.Name):
-                        deref_names.add(tg.id)
+                        (deref_names if from_deref else other_assigned).add(tg.id)
+            elif isinstance(s, (ast.For,)) and isinstance(s.target, ast.Name):
+                other_assigned.add(s.target.id)
+        deref_names -= other_assigned       # a name is dereferenced only if every assignment to it dereferences
         bad = []
         for s in ast.walk(f.node):
             if isinstance(s, ast.Attribute) and s.attr in ("content", "value", "pointer", "_content", "_value", "_pointer"):
